@@ -7,6 +7,7 @@ import time
 from concurrent.futures import ThreadPoolExecutor
 
 from vlib import core
+from checks import httpresp
 
 
 
@@ -436,7 +437,9 @@ def run(ctx):
     ctx.extra["phase_wall_s"] = phases
     if ctx.tier == "thorough":
         selftest(ctx, vh, hists, cases)
-    ctx.nontrivial = len({json.dumps(h["steps"], sort_keys=True) for h in hists if len(h["steps"]) >= 2}) + len(cases)
+    # response write phase (specs/HttpResp.tla): gated ResponseWriters, artifacts around the buffer sizes
+    rc, rf = httpresp.run_resp(ctx, "X04", vh, vhr)
+    ctx.nontrivial = len({json.dumps(h["steps"], sort_keys=True) for h in hists if len(h["steps"]) >= 2}) + len(cases) + len(rc)
     ctx.rule = ("histories = TLC BFS of HttpEdit (every request of the valid / invalid / malformed / read pools at every graph "
                 "reachable from four GraphEdit preludes), TLC simulation walks (class-weighted), seeded C12 histories lifted to "
                 "requests; each request is sent to the real ServeMux (httptest) and status, body, application graph and autosaved "
@@ -497,6 +500,12 @@ def selftest(ctx, vh, hists, cases):
 
 def replay(ctx, path):
     obj = json.load(open(path))["case"]
+    if obj.get("family") == "httpresp":
+        httpresp.replay_case(ctx, "X04", obj["case"])
+        ctx.rule = "replay x10 (response phase)"
+        ctx.nontrivial = 2
+        ctx.sample({"replayed": path})
+        return
     vh = core.build_vh()
     seen = {}
     if "history" in obj:
